@@ -138,7 +138,10 @@ func init() {
 					return mm
 				}
 			case "sum":
-				if mm := Diff(i, h.Sum(st.Hex("prefix")), st.Hex("exp")); mm != nil {
+				if mm := Diff(i, h.Sum(st.HexMut("prefix")), st.Hex("exp")); mm != nil {
+					return mm
+				}
+				if mm := SumRoomy(i, h, st.Hex("prefix"), st.Hex("exp")); mm != nil {
 					return mm
 				}
 			case "finish":
